@@ -14,6 +14,9 @@ Fixpoint alookup {A} (k : string) (l : list (string * A)) : option A :=
   | (k', a) :: r => if String.eqb k k' then Some a else alookup k r
   end.
 
+(* the generated colour table and magic_to_dict form of this run *)
+Definition cenv : env := mkEnv colors magic_mode.
+
 Definition dummy_schema : schema := SLeaf KOpaque.
 
 Definition class_schema (cls : string) : schema :=
@@ -44,12 +47,12 @@ Definition valid_keys : list string :=
   end.
 
 (* DefaultSettings() as created at import time *)
-Definition defaults0 : tree * option err := defaults_new colors reset_mode defaults_schema DEFAULTS.
+Definition defaults0 : tree * option err := defaults_new cenv reset_mode defaults_schema DEFAULTS.
 
 (* ---------------------------------------------------------------- update on a sub-object: x.a.b.update(arg) *)
 Fixpoint update_at (s : schema) (st : tree) (sub : path) (arg : dict) : tree * option err :=
   match sub with
-  | [] => update colors s st arg true false
+  | [] => update cenv s st arg true false
   | k :: r =>
       match s, st with
       | SObj _ _ _ _ props, Node sd =>
@@ -93,29 +96,29 @@ Definition step (cls : string) (w : world) (o : op) : world * obs :=
       let '(t, e) := update_at defaults_schema (w_def w) sub arg in
       (mkW t (w_obj w), mkObs e (as_dict s (w_obj w)) (Some (as_dict defaults_schema t)))
   | OAsg false p v =>
-      let '(t, e) := lift_res (w_obj w) (assign colors s (w_obj w) p v) in
+      let '(t, e) := lift_res (w_obj w) (assign cenv s (w_obj w) p v) in
       (mkW (w_def w) t, mkObs e (as_dict s t) None)
   | OAsg true p v =>
-      let '(t, e) := lift_res (w_def w) (assign colors defaults_schema (w_def w) p v) in
+      let '(t, e) := lift_res (w_def w) (assign cenv defaults_schema (w_def w) p v) in
       (mkW t (w_obj w), mkObs e (as_dict s (w_obj w)) (Some (as_dict defaults_schema t)))
   | OSetStyle arg =>
-      let '(t, e) := set_style colors style_setter_takes_instance s (w_obj w) (SDict arg) in
+      let '(t, e) := set_style cenv style_setter_takes_instance s (w_obj w) (SDict arg) in
       (mkW (w_def w) t, mkObs e (as_dict s t) None)
   | OSetStyleInst arg =>
-      match update colors s (match fresh colors s with inl t0 => t0 | inr _ => Leaf None end) arg true false with
+      match update cenv s (match fresh cenv s with inl t0 => t0 | inr _ => Leaf None end) arg true false with
       | (inst, None) =>
-          let '(t, e) := set_style colors style_setter_takes_instance s (w_obj w) (SInst inst) in
+          let '(t, e) := set_style cenv style_setter_takes_instance s (w_obj w) (SInst inst) in
           (mkW (w_def w) t, mkObs e (as_dict s t) None)
       | (_, Some _) => (w, mkObs (Some EOther) (as_dict s (w_obj w)) None)   (* the source object is not built *)
       end
   | OSetStyleWrong =>
-      let '(t, e) := set_style colors style_setter_takes_instance s (w_obj w) SWrong in
+      let '(t, e) := set_style cenv style_setter_takes_instance s (w_obj w) SWrong in
       (mkW (w_def w) t, mkObs e (as_dict s t) None)
   | OReset =>
-      let '(t, e) := reset colors reset_mode defaults_schema (w_def w) DEFAULTS in
+      let '(t, e) := reset cenv reset_mode defaults_schema (w_def w) DEFAULTS in
       (mkW t (w_obj w), mkObs e (as_dict s (w_obj w)) (Some (as_dict defaults_schema t)))
   | OResolve kw =>
-      let '(t, e) := get_style colors s (class_families cls) dstyle_schema (def_style_state (w_def w))
+      let '(t, e) := get_style cenv s (class_families cls) dstyle_schema (def_style_state (w_def w))
                                valid_keys (w_obj w) (show_style_kwargs kw) in
       (w, mkObs e (as_dict s (w_obj w)) (match e with None => Some (as_dict s t) | Some _ => None end))
   end.
@@ -129,7 +132,7 @@ Fixpoint run_ops (cls : string) (w : world) (ops : list op) : list obs :=
 (* Class(style=style, style_kwargs), first access of .style, then the operations *)
 Definition run_case (cls : string) (style kwargs : dict) (ops : list op) : list obs :=
   let s := class_schema cls in
-  let '(t0, e0) := obj_new colors s style kwargs in
+  let '(t0, e0) := obj_new cenv s style kwargs in
   mkObs e0 (as_dict s t0) None :: run_ops cls (mkW (fst defaults0) t0) ops.
 
 (* ---------------------------------------------------------------- comparison with the implementation *)
